@@ -54,6 +54,11 @@ fn template(site: &str, slot: &dyn Fn(&str) -> String) -> String {
         "link_enumerator" => format!("{fa}module M\n{par}enum E {{\n  /// {{@link Nope}}\n  {own}A\n  {sib}B\n}}\n"),
         "incorrect_def" => format!("{fa}module M\n/// @param p: not a parameter\n{own}struct S {{ x: int32 }}\n{sib}struct Z {{}}\n"),
         "incorrect_op" => format!("{fa}module M\n{par}interface I {{\n  /// @param nope: no such parameter\n  {own}op(p: int32)\n  {sib}op2()\n}}\n"),
+        // the other places where a tag does not fit an operation: @returns where nothing is returned, a named @returns for a
+        // single return value, a @returns naming no member of the returned tuple
+        "incorrect_ret_void" => format!("{fa}module M\n{par}interface I {{\n  /// @returns: nothing is returned\n  {own}op(p: int32)\n  {sib}op2()\n}}\n"),
+        "incorrect_ret_single" => format!("{fa}module M\n{par}interface I {{\n  /// @returns named: a single value has no name\n  {own}op(p: int32) -> bool\n  {sib}op2()\n}}\n"),
+        "incorrect_ret_tuple" => format!("{fa}module M\n{par}interface I {{\n  /// @returns nope: no such member\n  {own}op() -> (a: int32, b: bool)\n  {sib}op2()\n}}\n"),
         "malformed_def" => format!("{fa}module M\n/// @bogus tag\n{own}struct S {{ x: int32 }}\n{sib}struct Z {{}}\n"),
         "malformed_member" => format!("{fa}module M\n{par}struct S {{\n  /// {{@link}} nothing\n  {own}x: int32\n  {sib}y: int32\n}}\n"),
         _ => format!("{fa}module M\nstruct S {{ x: int32 }}\n"),
